@@ -281,8 +281,25 @@ struct DC14
 // arguments BY VALUE (must not consume what the listeners get), one takes them by non-const reference and changes one (must be
 // called exactly once per dispatch, and the listeners must see the change)
 static int gMixV[20200], gMixR[20200];
-template <typename Base> struct MixinByValue : Base { bool mixinBeforeDispatch(int, TPayload p, int) const { const long long e = p.observe(); if(e >= 0 && e < 20200) ++gMixV[e]; return true; } };
-template <typename Base> struct MixinByRef : Base { bool mixinBeforeDispatch(int &, TPayload & p, int & v) const { const long long e = p.observe(); if(e >= 0 && e < 20200) ++gMixR[e]; v += 1000000; return true; } };
+// each mixin has data members of its own (a mixin is a layer of the dispatcher object: it must be called on ITS layer)
+template <typename Base> struct MixinByValue : Base {
+	uint64_t magicV; mutable uint64_t callsV;
+	MixinByValue() : magicV(0x1111aaaa2222bbbbULL), callsV(0) {}
+	bool mixinBeforeDispatch(int, TPayload p, int) const {
+		if(magicV != 0x1111aaaa2222bbbbULL) violation("dispatch:mixin-called-on-a-foreign-layer-of-the-object", "the by-value mixin does not find its own data member where its this pointer says");
+		++callsV;
+		const long long e = p.observe(); if(e >= 0 && e < 20200) ++gMixV[e]; return true;
+	}
+};
+template <typename Base> struct MixinByRef : Base {
+	uint64_t magicR; mutable uint64_t callsR;
+	MixinByRef() : magicR(0x3333cccc4444ddddULL), callsR(0) {}
+	bool mixinBeforeDispatch(int &, TPayload & p, int & v) const {
+		if(magicR != 0x3333cccc4444ddddULL) violation("dispatch:mixin-called-on-a-foreign-layer-of-the-object", "the by-reference mixin does not find its own data member where its this pointer says");
+		++callsR;
+		const long long e = p.observe(); if(e >= 0 && e < 20200) ++gMixR[e]; v += 1000000; return true;
+	}
+};
 struct PolCustomMixins { typedef eventpp::MixinList<MixinByValue, MixinByRef> Mixins; };
 struct DC15
 {
@@ -291,10 +308,12 @@ struct DC15
 	static int key(int k) { return KI(k); }
 	static void dispatch(D & d, int k, int eid, int val, uint32_t form) {
 		gMixV[eid] = 0; gMixR[eid] = 0;
+		const uint64_t cv0 = d.callsV, cr0 = d.callsR;
 		if(form == 0) { int kk = KI(k); TPayload p(eid); int v = val; d.dispatch(kk, p, v); }
 		else if(form == 1) { const int kk = KI(k); const TPayload p(eid); const int v = val; d.dispatch(kk, p, v); }
 		else d.dispatch(KI(k), TPayload(eid), int(val));
 		if(gMixV[eid] != 1) violation("dispatch:mixin-with-by-value-parameters:calls", "mixinBeforeDispatch(int, TPayload, int) was called " + num(gMixV[eid]) + " times with the dispatched payload by one dispatch");
+		if(d.callsV == cv0 || d.callsR == cr0) violation("dispatch:mixin-state-not-updated-in-the-dispatcher-object", "a dispatch left the call counter member of a mixin of this dispatcher unchanged");
 		if(gMixR[eid] != 1) violation("dispatch:mixin-with-reference-parameters:calls", "mixinBeforeDispatch(int &, TPayload &, int &) was called " + num(gMixR[eid]) + " times with the dispatched payload by one dispatch");
 	}
 	static void expect(ArgPack & p, int k, int eid, int val) { p.push(KI(k)); p.push(eid); p.push(val + 1000000); }
